@@ -22,6 +22,10 @@ CONSTANTS
   CompactRevs = {}
   MaxCompacts = 0
   DelFaults = {}
+  EagerSeq = FALSE
+  FixedOps <- MCNoFixedOps
+  LazyWatchers = {}
+  AtomicWrites = FALSE
   GenHist = FALSE
 INIT Init
 NEXT Next
